@@ -228,6 +228,9 @@ class Ref:
                     o = self.eval_node(c)
                 finally:
                     self.ctx.pop()
+                if o[0] == 'fail' and any(cc[0] == 'fatal' for cc in o[1]):
+                    # a BaseException is not a failure a one-of contains: it ends the run
+                    return o
                 if o[0] != 'ok':
                     self.losers.setdefault(consumer, []).append(c)
                 if o[0] == 'ok':
